@@ -19,6 +19,7 @@ import (
 	"go/token"
 	"path/filepath"
 	"sort"
+	"strconv"
 	"strings"
 )
 
@@ -770,6 +771,90 @@ func markValues(x *clX, e ast.Expr, seen map[ast.Node]bool) {
 	})
 }
 
+// getSteps: the statement groups of getValueFromMap, by shape: the read lock, the nil test, the copy of the map
+// header, strings.ToLower, the direct lookup with the lower-cased whole key (returning on a hit), strings.Split with
+// its separator, the traversal loop (index expression on the current map, type assertion to map[string]any).
+func (x *clX) getSteps(d *ast.FuncDecl) []string {
+	var out []string
+	lowered := ""
+	for i, st := range d.Body.List {
+		switch v := st.(type) {
+		case *ast.ExprStmt:
+			if k := x.muCall(v.X); k != "" {
+				out = append(out, k)
+				continue
+			}
+		case *ast.DeferStmt:
+			if k := x.muCall(v.Call); k != "" {
+				out = append(out, "defer "+k)
+				continue
+			}
+		case *ast.IfStmt:
+			if b, ok := v.Cond.(*ast.BinaryExpr); ok && v.Init == nil && b.Op == token.EQL && clIsIdent(b.Y, "nil") && x.field(b.X) == "values" {
+				out = append(out, "values == nil: return nil")
+				continue
+			}
+			// if val, ok := current[lowered]; ok { return val }
+			if as, ok := v.Init.(*ast.AssignStmt); ok && len(as.Rhs) == 1 && len(as.Lhs) == 2 {
+				if ix, ok := as.Rhs[0].(*ast.IndexExpr); ok && lowered != "" && clIsIdent(ix.Index, lowered) && len(v.Body.List) == 1 {
+					if r, ok := v.Body.List[0].(*ast.ReturnStmt); ok && len(r.Results) == 1 && src(r.Results[0]) == src(as.Lhs[0]) {
+						out = append(out, "direct lookup of the lower-cased key: return on hit")
+						continue
+					}
+				}
+			}
+		case *ast.AssignStmt:
+			if len(v.Rhs) == 1 && len(v.Lhs) == 1 {
+				if se, ok := v.Rhs[0].(*ast.StarExpr); ok && x.field(se.X) == "values" {
+					out = append(out, "copy of the map header")
+					continue
+				}
+				if c, ok := v.Rhs[0].(*ast.CallExpr); ok {
+					switch src(c.Fun) {
+					case "strings.ToLower":
+						if id, ok := v.Lhs[0].(*ast.Ident); ok {
+							lowered = id.Name
+						}
+						out = append(out, "strings.ToLower")
+						continue
+					case "strings.Split":
+						if len(c.Args) == 2 && lowered != "" && clIsIdent(c.Args[0], lowered) {
+							if l, ok := ceLit(c.Args[1]); ok {
+								out = append(out, "strings.Split of the lower-cased key at "+strconv.Quote(l))
+								continue
+							}
+						}
+					}
+				}
+			}
+		case *ast.RangeStmt:
+			hasIndex, hasAssert := false, false
+			ast.Inspect(v.Body, func(n ast.Node) bool {
+				switch w := n.(type) {
+				case *ast.IndexExpr:
+					hasIndex = true
+				case *ast.TypeAssertExpr:
+					if w.Type != nil && src(w.Type) == "map[string]any" {
+						hasAssert = true
+					}
+				}
+				return true
+			})
+			if hasIndex && hasAssert {
+				out = append(out, "traversal loop")
+				continue
+			}
+		case *ast.ReturnStmt:
+			if i == len(d.Body.List)-1 && len(v.Results) == 1 && clIsIdent(v.Results[0], "nil") {
+				out = append(out, "return nil")
+				continue
+			}
+		}
+		out = append(out, "other: "+src(st))
+	}
+	return out
+}
+
 func genConfigLoad(repo string) (out string) {
 	const head = "/- GENERATED by extract/configload.go from config/*.go of the current working tree — do not edit, not committed.\n" +
 		"   Statement skeletons of (*Config).Load and loadSourcesSequential and every mention of Config.values. -/\n" +
@@ -785,7 +870,7 @@ func genConfigLoad(repo string) (out string) {
 			out = head + "def extractError : Option String := some " + leanStr(msg) + "\n" +
 				"def loadSteps : List Step := []\n" +
 				"def srcLoop : SrcLoop := { rangesOverSources := false, accFresh := false, returnsAcc := false, body := [] }\n" +
-				"def valuesUses : List Use := []\n\nend Rivaas.Gen.ConfigLoad\n"
+				"def valuesUses : List Use := []\ndef getSteps : List String := []\n\nend Rivaas.Gen.ConfigLoad\n"
 		}
 	}()
 	p := parseDir(filepath.Join(repo, "config"))
@@ -808,6 +893,16 @@ func genConfigLoad(repo string) (out string) {
 	b.WriteString("/-- (*Config).Load, statement groups in source order -/\ndef loadSteps : List Step := [\n  " + strings.Join(steps, ",\n  ") + "]\n\n")
 	b.WriteString("/-- loadSourcesSequential -/\ndef srcLoop : SrcLoop :=\n  " + loop + "\n\n")
 	b.WriteString("/-- every mention of the field `values` of a Config in package config (non-test files), sorted -/\ndef valuesUses : List Use := [\n  " + strings.Join(uses, ",\n  ") + "]\n\n")
+	gv := ms["getValueFromMap"]
+	var gs []string
+	if gv == nil || recvName(gv) == "" {
+		gs = []string{leanStr("getValueFromMap not found")}
+	} else {
+		for _, t := range (&clX{recv: recvName(gv), pk: p}).getSteps(gv) {
+			gs = append(gs, leanStr(t))
+		}
+	}
+	b.WriteString("/-- getValueFromMap, statement groups in source order -/\ndef getSteps : List String := [\n  " + strings.Join(gs, ",\n  ") + "]\n\n")
 	b.WriteString("end Rivaas.Gen.ConfigLoad\n")
 	return b.String()
 }
